@@ -1,4 +1,5 @@
 import Driver.Util
+import ClairModel.Lib.Utf8
 import ClairModel.Model.Version
 import ClairModel.Model.Pep440
 import ClairModel.Model.Gem
@@ -10,10 +11,12 @@ import ClairModel.Model.OsvRange
 namespace Driver.C12
 open ClairModel ClairModel.Order
 
-/-- hex → characters (one per byte; the harness sends ASCII only). -/
-def str (h : String) : Option (List Char) := (Driver.unhex h).map fun bs => bs.map fun b => Char.ofNat b.toNat
+/-- hex → runes: the bytes decoded the way Go's `range` over a string does
+    (ill-formed bytes become U+FFFD).  The models work on runes; every class
+    they test is ASCII or table-driven, and byte offsets never matter. -/
+def str (h : String) : Option (List Char) := (Driver.unhex h).map fun bs => Utf8.decode (bs.map (·.toNat))
 
-def hexOf (cs : List Char) : String := Driver.hex (cs.map fun c => UInt8.ofNat c.toNat)
+def hexOf (cs : List Char) : String := Driver.hex ((Utf8.encodeAll cs).map UInt8.ofNat)
 
 def ints (s : String) : Option (List Int) :=
   if s == "-" then some [] else (s.splitOn ",").mapM String.toInt?
@@ -105,7 +108,7 @@ def answer (l : String) : String :=
     | none => "bad-op"
     | some s => match Maven.parse s with
       | none => "err"
-      | some v => "ok " ++ hexOf (Maven.render v)
+      | some v => "ok " ++ hexOf (Maven.renderHex v)
   | ["mvncmp", s, t] =>
     match str s, str t with
     | some s, some t => match Maven.parse s, Maven.parse t with
